@@ -69,7 +69,7 @@ PACKS = {
     # running semantic actions
     "actions": [
         "C09.rule_siblings", "C09.rule_terminals", "C09.rule_alt_index", "C09.rule_builtins", "C09.rule_protocol",
-        "C03.rule_visitor_order", "C15.rule_actions_reset",
+        "C03.rule_visitor_order", "C15.rule_actions_reset", "C15.rule_action_precedence",
     ],
     # error objects
     "errors": [
